@@ -88,4 +88,35 @@ def mbNext (e : Entry) : Next :=
     | [] => .idle
     | (_, it) :: rest => .normal it { e with queue := rest }
 
+/-- `EventSubscription.Enqueue`: the item joins the end of the queue. -/
+def Entry.push (e : Entry) (st : Nat) (it : CItem) : Entry := { e with queue := e.queue ++ [(st, it)] }
+
+/-- `EventSubscription.enqueueUnlock`: the answer of a query request joins the arrived unlock items. -/
+def Entry.pushUnlock (e : Entry) (st : Nat) (it : LItem) : Entry :=
+  match e.locks with
+  | some (cap, pend) => { e with locks := some (cap, pend ++ [(st, it)]) }
+  | none => { e with locks := some (0, [(st, it)]) }   -- append to a nil slice (unreachable)
+
+/-- `lockEvents(n)`: `n` query requests are out; the normal queue is suspended. -/
+def Entry.lockFor (e : Entry) (n : Nat) : Entry := { e with locks := some (n, []) }
+
+/-! ### the throttle as the gateway model uses it (`rescache.Throttle`) -/
+
+/-- `running >= limit`: the callback has to wait. -/
+def ThrottleS.full (t : ThrottleS) : Bool := t.running ≥ t.limit
+
+/-- `Add` while full: the callback (a job id) joins the queue. -/
+def ThrottleS.enqueue (t : ThrottleS) (jid : Nat) : ThrottleS := { t with queue := t.queue ++ [jid] }
+
+/-- `Add` with a free slot: the callback runs at once. -/
+def ThrottleS.start (t : ThrottleS) : ThrottleS := { t with running := t.running + 1 }
+
+/-- `Done`: `none` is the Go panic (nothing running); otherwise the new state and the waiting
+    callback that takes over the slot, if any. -/
+def ThrottleS.done (t : ThrottleS) : Option (ThrottleS × Option Nat) :=
+  if t.running ≤ 0 then none
+  else match t.queue with
+    | [] => some ({ t with running := t.running - 1 }, none)
+    | jid :: q => some ({ t with queue := q }, some jid)
+
 end Resgate.Gw
